@@ -59,6 +59,10 @@ var trackedDenoms = []string{"uusdc", "ustake", "uswap", "ibc"}
 // sequences are uint64), different from the counterparty end (channel-9).
 const chan1ID = "channel-4294967296"
 
+// cpChan1ID is the COUNTERPARTY end of the second channel: a valid ICS-24 identifier that does not
+// have ibc-go's own channel-{N} shape (the counterparty chooses it).
+const cpChan1ID = "noble-lane.1"
+
 type World struct {
 	app  *simapp.SimApp
 	cdc  codec.Codec
@@ -136,7 +140,7 @@ func NewWorld(orbiterGenesisOverride json.RawMessage) (w *World, initErr error) 
 		acct: map[string]sdk.AccAddress{}, acctName: map[string]string{},
 		bytes32: map[string][]byte{}, bytes32Name: map[string]string{},
 		chanOf:   map[int]string{0: "channel-0", 1: chan1ID},
-		cpChanOf: map[int]string{0: "channel-7", 1: "channel-9"},
+		cpChanOf: map[int]string{0: "channel-7", 1: cpChan1ID},
 	}
 
 	// ---- accounts
